@@ -168,6 +168,131 @@ func genCase(r *core.Rand, maxD, maxW int) []string {
 	return ops
 }
 
+// prioPattern: the priorities of a wide group: few distinct values in a mixed pattern (so that many
+// children tie and the ties are interleaved with other priorities), or all equal, or all distinct.
+func prioPattern(r *core.Rand, w int) []int64 {
+	ps := make([]int64, w)
+	kind := r.Intn(9)
+	k := int64(r.Range(2, 5))
+	blk := r.Range(2, 6)
+	base := int64(r.Pick2(0, 0))
+	if r.Chance(1, 6) {
+		base = int64(r.Pick2(-1000000, 1<<40))
+	}
+	for i := range ps {
+		switch kind {
+		case 0:
+			ps[i] = int64(i) % 2
+		case 1:
+			ps[i] = int64(i) % 3
+		case 2:
+			ps[i] = -(int64(i) % 4)
+		case 3:
+			ps[i] = int64(i) % k
+		case 4: // blocks of equal priorities, ascending or descending
+			ps[i] = int64(i / blk)
+			if k%2 == 0 {
+				ps[i] = -ps[i]
+			}
+		case 5: // random over a few values
+			ps[i] = int64(r.Intn(int(k))) - 1
+		case 6: // all equal
+			ps[i] = 7
+		case 7: // all distinct, shuffled below
+			ps[i] = int64(i)
+		default: // two interleaved runs: 0 1 0 1 ... with a rare high one
+			ps[i] = int64(i) % 2
+			if r.Chance(1, 8) {
+				ps[i] = 9
+			}
+		}
+		ps[i] += base
+	}
+	if kind == 7 {
+		for i := len(ps) - 1; i > 0; i-- {
+			j := r.Intn(i + 1)
+			ps[i], ps[j] = ps[j], ps[i]
+		}
+	}
+	core.Count("wide:prio-pattern-" + strconv.Itoa(kind))
+	return ps
+}
+
+// wideGroup: a fifo or priority group with many children (sorting networks, insertion-sort cut-offs
+// and similar width-dependent code paths only show beyond a dozen elements). Children are mostly
+// leaves that do not fail (so the whole run order is visible), of mixed capabilities (so the request
+// and the response order differ), with a few small subtrees.
+func (g *genState) wideGroup(w int) *node {
+	r := g.r
+	n := &node{kind: byte(r.Pick2('P', 'P')), scope: r.Pick("n", "n", "n", "N", "qs", "sq", "q", "s")}
+	if r.Chance(1, 3) {
+		n.kind = 'F'
+		n.agg = r.Bool()
+	}
+	failDen := r.Pick2(25, 1000)
+	for i := 0; i < w; i++ {
+		var c *node
+		switch r.Intn(12) {
+		case 0:
+			c = &node{kind: 'F', scope: "n", agg: r.Bool(), kids: []*node{g.quietLeaf(failDen), g.quietLeaf(failDen)}}
+		case 1:
+			c = &node{kind: 'C', cond: r.Intn(len(condPool)), scope: "n", kids: []*node{g.quietLeaf(failDen)}}
+			if r.Bool() {
+				c.els = g.quietLeaf(failDen)
+			}
+		case 2:
+			c = &node{kind: 'P', scope: "n", kids: []*node{g.quietLeaf(failDen), g.quietLeaf(failDen), g.quietLeaf(failDen)},
+				prios: []int64{int64(r.Intn(2)), int64(r.Intn(2)), int64(r.Intn(2))}}
+		default:
+			c = g.quietLeaf(failDen)
+		}
+		n.kids = append(n.kids, c)
+	}
+	if n.kind == 'P' {
+		n.prios = prioPattern(r, w)
+	}
+	return n
+}
+
+func (g *genState) quietLeaf(failDen int) *node {
+	n := g.leaf()
+	n.failReq = g.r.Chance(1, failDen)
+	n.failRes = g.r.Chance(1, failDen)
+	return n
+}
+
+// wideCase: one or two wide groups (at the root, or below a group/filter), each run on both kinds.
+func wideCase(r *core.Rand, maxW int) []string {
+	var ops []string
+	posts := r.Range(1, 2)
+	for i := 0; i < posts; i++ {
+		g := &genState{r: r, maxD: 2, maxW: 3}
+		w := r.Range(13, maxW)
+		if r.Chance(1, 5) {
+			w = r.Range(2, 13)
+		}
+		t := g.wideGroup(w)
+		core.Count("wide:width-" + strconv.Itoa(w/8*8) + "+")
+		switch r.Intn(6) {
+		case 0: // below a fifo group with siblings
+			t = &node{kind: 'F', scope: "n", agg: r.Bool(), kids: []*node{g.quietLeaf(1000), t, g.quietLeaf(1000)}}
+		case 1: // below a filter that holds for every message (pool condition 16)
+			t = &node{kind: 'C', cond: 16, scope: "n", kids: []*node{t}}
+		case 2: // two wide groups side by side in a priority group
+			t = &node{kind: 'P', scope: "n", kids: []*node{t, g.wideGroup(r.Range(13, maxW))}, prios: []int64{0, 0}}
+		}
+		if r.Chance(1, 10) {
+			t = defect(r, t)
+		}
+		ops = append(ops, "post "+t.String())
+		for _, k := range []string{"q", "s", r.Pick("q", "s")} {
+			m := genMsg(r)
+			ops = append(ops, "run "+k+" "+m.String()+" "+intsToken(m.truths(k == "s")))
+		}
+	}
+	return ops
+}
+
 // scopeMatrix: every combination of scopes on a two-level tree (group over two leaves).
 func scopeMatrix(emit func([]string)) {
 	scopes := []string{"n", "e", "q", "s", "qs", "x"}
@@ -196,7 +321,11 @@ func (P) Gen(r *core.Rand, tier string, emit func([]string)) {
 		n = 40000
 	}
 	scopeMatrix(emit)
+	wide := n / 5
 	for i := 0; i < n; i++ {
+		if i%5 == 0 && i/5 < wide {
+			emit(wideCase(r.Fork(), 40))
+		}
 		emit(genCase(r, 5, 4))
 	}
 }
